@@ -26,6 +26,9 @@ def gen_cases(tier, seed):
     for i, k in enumerate(scal):
         base = 1 if i % 3 == 0 else rng.randrange(1, N)
         yield "scalar", {"k": hex(k), "base": hex(base)}
+    # scalars far beyond 2^256 ("all scalars k >= 0"): more than 4300 decimal digits (where int -> str conversion has a limit), 2^15000
+    for k in ([10 ** 4300 + 7] if q else [10 ** 4300 + 7, 10 ** 4300 - 1, (1 << 15000) + 12345, 10 ** 5000]):
+        yield "scalar", {"k": hex(k), "base": hex(rng.randrange(1, N)) if k % 2 else "0x1"}
     # the identity as the BASE point: k*O = O for every k ("all curve points and the identity")
     for k in [0, 1, 2, 3, N - 1, N, N + 1, (1 << 256) - 1] + [rng.getrandbits(256) for _ in range(4)]:
         yield "scalar", {"k": hex(k), "base": "0x0"}
